@@ -59,7 +59,7 @@ var c02Universe = func() []string {
 	for _, k := range []string{"A", "B", "d", "~", "\x01", "\xff", "aA", "abca", "abcc", "cccc", "aab", "x", "1", "a\xff\x00", "a\xffb", "a\xff\xff", "\xff\xff", "\xffa"} {
 		set[k] = true
 	}
-	delete(set, "")
+	set[""] = true // the empty key is a key like any other (it is what key = '' and key <= '' select)
 	out := make([]string, 0, len(set))
 	for k := range set {
 		out = append(out, k)
